@@ -10,6 +10,8 @@ REL = {
  "ante": "C01 C02 C05 C07 C17 C18",
  "oracle": "C01 C10 C11 C12 C20",
  "small-modules": "C01 C13 C14 C15 C16 C18 C20",
+ "app-wiring": "C01 C09 C13 C14 C15 C16 C17 C18 C19 C20",
+ "evm-types": "C01 C02 C03 C05 C07 C19 C20",
 }
 args = sys.argv[1:]
 jobs = 3
